@@ -297,7 +297,11 @@ pub fn eval(expr: Node) -> Result<Number, Box<dyn error::Error>> {
                 #[cfg(feature = "verif_hooks")]
                 crate::verif_hooks::tick();
                 x += 1;
-                n = (n.log10() / b.log10()).floor();
+                let next = (n.log10() / b.log10()).floor();
+                if !(next < n) {
+                    return Err("The iterated logarithm does not converge for this base.".into());
+                }
+                n = next;
             }
             Ok(Number::Integer(x))
         }
